@@ -9,6 +9,10 @@
 //   D:i:now:k1,k2,..    load during which the j-th read() call for the DATA (the 4th, 5th, .. read of the load) returns at most k_j bytes
 //   H:i:now:k1,k2,..    load during which the j-th read() call (counted from the first: the header fields included) returns at most k_j bytes
 //   Y:now:k             gc during which every read() returns at most k bytes (read_timestamp goes through read_all)
+//   A:i:now:t:hex       gc at clock `now` with a rendezvous: right after gc's read() of the 8 stamp bytes of session i a second thread is released that
+//                       loads session i and saves it with deadline t (in the future); the gc thread waits up to 80 ms for it (with the per-sid lock
+//                       held around stamp read and unlink the second thread simply blocks until gc is done with that file); if gc never reads
+//                       the stamp (no such file) the second thread runs after gc. Either way session i must be there afterwards.
 //   W:i:t:hex:k1,k2,..  complete save during which the j-th write() call accepts at most k_j bytes (0 = everything): short writes
 //   T:i:t:n:iters:len   n writer and n reader threads hammer session i (values = one byte repeated, length depends on the byte), then remove and a
 //                       final save of "final": T=ok unless some load failed or returned a value no writer wrote
@@ -102,8 +106,27 @@ static size_t g_rd_skip = 3;     // reads of the load that are not cut (3 = the 
 static size_t g_rd_every = 0;    // != 0: every read() is cut to this many bytes
 static size_t g_rd_calls = 0;
 static std::vector<size_t> g_rshort;
+// rendezvous for op A
+static volatile bool g_amb_active = false, g_amb_fired = false, g_amb_go = false, g_amb_done = false;
+static ino_t g_amb_ino = 0; static dev_t g_amb_dev = 0;
+static pthread_mutex_t g_amb_mx = PTHREAD_MUTEX_INITIALIZER;
+static pthread_cond_t g_amb_cv = PTHREAD_COND_INITIALIZER;
+static void amb_rendezvous(int fd, size_t n, ssize_t got)
+{
+	if(!g_amb_active || g_amb_fired || n != 8 || got != 8) return;
+	struct stat sb;
+	if(::fstat(fd, &sb) != 0 || sb.st_ino != g_amb_ino || sb.st_dev != g_amb_dev) return;
+	pthread_mutex_lock(&g_amb_mx);
+	g_amb_fired = true; g_amb_go = true;
+	pthread_cond_broadcast(&g_amb_cv);
+	struct timespec ts; clock_gettime(CLOCK_REALTIME, &ts);
+	ts.tv_nsec += 80 * 1000000L; if(ts.tv_nsec >= 1000000000L) { ts.tv_sec++; ts.tv_nsec -= 1000000000L; }
+	while(!g_amb_done) if(pthread_cond_timedwait(&g_amb_cv, &g_amb_mx, &ts) != 0) break;
+	pthread_mutex_unlock(&g_amb_mx);
+}
 extern "C" ssize_t read(int fd, void *buf, size_t n)
 {
+	if(g_amb_active) { ssize_t r = syscall(SYS_read, fd, buf, n); amb_rendezvous(fd, n, r); return r; }
 	if(g_rd) {
 		size_t c = g_rd_calls++;
 		if(g_rd_every) { if(g_rd_every < n) n = g_rd_every; }
@@ -253,6 +276,20 @@ public:
 	virtual std::set<std::string> get_cookie_names() { return std::set<std::string>(); }
 };
 
+struct aarg { cppcms::sessions::session_storage *st; std::string sid; time_t t; std::string data; };
+static void *amb_helper(void *p)
+{
+	aarg *a = static_cast<aarg *>(p);
+	pthread_mutex_lock(&g_amb_mx);
+	while(!g_amb_go) pthread_cond_wait(&g_amb_cv, &g_amb_mx);
+	pthread_mutex_unlock(&g_amb_mx);
+	try { time_t tt = 0; std::string d; a->st->load(a->sid, tt, d); a->st->save(a->sid, a->t, a->data); } catch(...) {}
+	pthread_mutex_lock(&g_amb_mx);
+	g_amb_done = true;
+	pthread_cond_broadcast(&g_amb_cv);
+	pthread_mutex_unlock(&g_amb_mx);
+	return 0;
+}
 struct targ { cppcms::sessions::session_storage *st; std::string sid; time_t t; int k, iters, len; long bad_none, bad_mixed; };
 static std::string tval(int k, int len) { return std::string(size_t(len + 37 * k), char('A' + k)); }
 static void *t_writer(void *p)
@@ -371,6 +408,21 @@ int main()
 					if(ok) out << "L=" << (long long)t << '.' << show(d);
 					else out << "L=none";
 					out << av;
+				}
+				else if(op == 'A' && a.size() == 5) {
+					size_t i = atoi(a[1].c_str()); if(i >= names.size() || !valid32(names[i])) throw 1;
+					g_now = (time_t)strtoll(a[2].c_str(), 0, 10);
+					aarg x = { st.get(), names[i], (time_t)strtoll(a[3].c_str(), 0, 10), payload(a[4]) };
+					struct stat sb; g_amb_ino = 0; g_amb_dev = 0;
+					if(::stat((dir + "/" + names[i]).c_str(), &sb) == 0) { g_amb_ino = sb.st_ino; g_amb_dev = sb.st_dev; }
+					g_amb_fired = false; g_amb_go = false; g_amb_done = false;
+					pthread_t th; pthread_create(&th, 0, amb_helper, &x);
+					g_amb_active = g_amb_ino != 0;
+					try { fact.gc_job(); } catch(...) { g_amb_active = false; pthread_mutex_lock(&g_amb_mx); g_amb_go = true; pthread_cond_broadcast(&g_amb_cv); pthread_mutex_unlock(&g_amb_mx); pthread_join(th, 0); throw; }
+					g_amb_active = false;
+					pthread_mutex_lock(&g_amb_mx); g_amb_go = true; pthread_cond_broadcast(&g_amb_cv); pthread_mutex_unlock(&g_amb_mx);
+					pthread_join(th, 0);
+					out << 'A' << (g_amb_fired ? "" : "");
 				}
 				else if(op == 'Y' && a.size() == 3) {
 					g_now = (time_t)strtoll(a[1].c_str(), 0, 10);
